@@ -66,6 +66,18 @@ namespace options
             }
         }
 
+        /**
+         * A token that is taken verbatim as a positional, whatever it looks like.
+         * Used for everything following the "--" on the command line.
+         */
+        static user_input positional(const std::string& arg)
+        {
+            user_input result;
+            result.arg_ = arg;
+
+            return result;
+        }
+
     public:
         bool is_value() const noexcept
         {
@@ -171,6 +183,9 @@ namespace options
 
             return { name_.begin() + 2, name_.end() };
         }
+
+    private:
+        user_input() = default;
 
     private:
         std::string arg_;
